@@ -119,7 +119,7 @@ fn dispatch(pool: &TaskPool, id: usize, gate: Arc<Gate>, obs: &Arc<Mutex<PoolObs
 
 pub fn pool_body(sc: PoolScenario, obs: Arc<Mutex<PoolObs>>) {
     ctl::window(false);
-    ctl::spurious(true); // waits may return unnotified (std permits it): a 1-cost deviation
+    ctl::spurious(crate::l2::spurious_now()); // waits may return unnotified (std permits it): a 1-cost deviation
     let pool = TaskPool::new();
     let mut gates: Vec<Arc<Gate>> = Vec::new();
     let mut next = 0usize;
@@ -289,7 +289,7 @@ pub struct SrvObs {
 
 pub fn srv_body(sc: SrvScenario, obs: Arc<Mutex<SrvObs>>) {
     ctl::window(false);
-    ctl::spurious(true); // waits may return unnotified (std permits it): a 1-cost deviation
+    ctl::spurious(crate::l2::spurious_now()); // waits may return unnotified (std permits it): a 1-cost deviation
     let srv = start_server();
     ctl::settle();
     let shared: SharedObs = Arc::new(Mutex::new(Obs::default()));
@@ -423,6 +423,7 @@ fn cfg(mode: Mode, bound: u32, tier: Tier) -> L2Cfg {
         bound: Some(bound),
         max_execs: if tier == Tier::Thorough { 1_500_000 } else { 60_000 },
         wall: Duration::from_secs(if tier == Tier::Thorough { 420 } else { 35 }),
+        spurious_upto: Some(if tier == Tier::Thorough { bound.saturating_sub(1) } else { bound }),
     }
 }
 
